@@ -4,6 +4,7 @@ import (
 	"bytes"
 	"encoding/json"
 	"fmt"
+	"io"
 	"os"
 	"sync"
 
@@ -125,9 +126,21 @@ func (c c16Case) body(x *xplore.Ctx, viol func(sig, detail string)) string {
 		if c.Kind == "quick" {
 			return nil // its API panics instead of returning errors: ordering only
 		}
-		if x.Choose(2, what) == 1 {
+		// the failure is a generic error, or one whose identity a builder might
+		// mistake for "end of input": bare / wrapped io.EOF, io.ErrUnexpectedEOF
+		switch x.Choose(5, what) {
+		case 1:
 			faults++
 			return fmt.Errorf("%w (%s)", store.ErrWrite, what)
+		case 2:
+			faults++
+			return io.EOF
+		case 3:
+			faults++
+			return fmt.Errorf("verif: storage said: %w", io.EOF)
+		case 4:
+			faults++
+			return io.ErrUnexpectedEOF
 		}
 		return nil
 	}
@@ -213,7 +226,7 @@ func (c c16Case) body(x *xplore.Ctx, viol func(sig, detail string)) string {
 
 func runC16(r *core.Run) {
 	defer cleanupFixture()
-	r.Rule("stateless DFS over choice sequences: every write-open, Write and commit of every build is a choice point {succeed, fail} (deviation bound 2: every single failure position and every pair), and every map range in the builders is a choice point over iteration orders (instrumented overlay); after EVERY commit (= every crash point of the write sequence) the store is checked for builder-written blocks with dangling links into the same build; oracle: failure => error and nil link; nil error => whole DAG committed. Builds: files (w in {2,3}, 0..10 chunks), symlink, plain and sharded directories (colliding names, F=8), recursive import of an on-disk tree, quick builder (ordering only)")
+	r.Rule("stateless DFS over choice sequences: every write-open, Write and commit of every build is a choice point {succeed, fail with a generic error, bare io.EOF, wrapped io.EOF, io.ErrUnexpectedEOF} (deviation bound 2: every single failure position and every pair), and every map range in the builders is a choice point over iteration orders (instrumented overlay); after EVERY commit (= every crash point of the write sequence) the store is checked for builder-written blocks with dangling links into the same build; oracle: failure => error and nil link; nil error => whole DAG committed. Builds: files (w in {2,3}, 0..10 chunks), symlink, plain and sharded directories (colliding names, F=8), recursive import of an on-disk tree, quick builder (ordering only)")
 	if !overlayActive {
 		r.InternalError("C16 needs the instrumented overlay build (run through run.sh)")
 		return
